@@ -187,3 +187,25 @@ def deep_values(v, trace, _seen=None):
             if isinstance(r, V):
                 out.extend(deep_values(r, trace, _seen))
     return out
+
+
+def role_of(ev, table):
+    """Role of the function an event belongs to: the function containing the construct, or - when the construct
+    sits in a helper that was inlined - the nearest enclosing function of the activation that has a role."""
+    q = ev.fn.qual if ev.fn is not None else None
+    if q in table:
+        return table[q]
+    for q in reversed(ev.stack):
+        if q in table:
+            return table[q]
+    return None
+
+
+def within(ev, qual):
+    """Did the event occur during an activation of function `qual` (directly or in an inlined helper)?"""
+    return (ev.fn is not None and ev.fn.qual == qual) or qual in ev.stack
+
+
+def real_call(ev):
+    """A CALL event that is not merely the entry into an inlined helper."""
+    return ev.kind == 'CALL' and not ev.d.get('inlined')
